@@ -135,7 +135,11 @@ def run_seeds(job):
     if res.get('nontrivial'):
       agg['nontrivial'].add(res.get('case_hash') or stable_hash(case))
     if job.get('digests'):
-      agg['digest'].append([i, res.get('digest')])
+      agg['digest'].append([i, stable_hash([
+          res.get('sched_hash'), res.get('steps'), res.get('state_hashes'),
+          sorted(res.get('faults', {}).items()),
+          sorted(res.get('probes', {}).items()), res.get('discarded'),
+          [v['fp'] for v in res.get('violations', [])]])])
     if len(agg['samples']) < 2 and res.get('nontrivial'):
       agg['samples'].append(machine.sample(case, res))
     stop = False
